@@ -18,6 +18,8 @@ import z3
 
 
 def unfold_sums(t, limit=4):
+    """SUMF_j(c..., n) with a literal n <= limit  ->  body_j[c...](0) + ... + body_j[c...](n-1)"""
+    from .dom_elem import SUM_REGISTRY
     cache = {}
 
     def rec(x):
@@ -30,13 +32,15 @@ def unfold_sums(t, limit=4):
         ch = [rec(c) for c in x.children()]
         r = x
         if z3.is_app(x):
-            if x.decl().name().startswith("SUM_") and len(ch) == 2:
-                n = z3.simplify(ch[1])
+            nm = x.decl().name()
+            if nm in SUM_REGISTRY and ch:
+                n = z3.simplify(ch[-1])
                 if z3.is_int_value(n) and 0 <= n.as_long() <= limit:
+                    phs, kph, templ = SUM_REGISTRY[nm]
                     zero = z3.RealVal(0) if x.sort() == z3.RealSort() else z3.IntVal(0)
                     r = zero
                     for k in range(n.as_long()):
-                        r = r + z3.Select(ch[0], z3.IntVal(k))
+                        r = r + z3.substitute(templ, *([(p, a) for p, a in zip(phs, ch[:-1])] + [(kph, z3.IntVal(k))]))
                     cache[i] = z3.simplify(r)
                     return cache[i]
             if ch and any(a.get_id() != b.get_id() for a, b in zip(ch, x.children())):
